@@ -546,3 +546,104 @@ def cgen_sequence(repo, has_prefetch, mem_write, set_exception, mem_read=None):
     if not isinstance(out, list):
         raise Undetermined("gen_c_code did not return a list")
     return [x for x in out if isinstance(x, str) and x.startswith("<") and x.endswith(">")]
+
+
+# ---------------------------------------------------------------------------------------------------------------------
+# explicit flag formulas: the expression simp_flags builds for one flag operator over symbolic operands
+
+SXP = "miasm/expression/simplifications_explicit.py"
+
+
+class _ExprBuildInterp(Interp):
+    """operands are `leaf` terms; &, ^, |, +, -, ~ on them build ("op", ...) terms; .msb() / .zeroExtend(n) / .signExtend(n) / .size are
+    understood on terms; ExprCond / ExprInt / ExprOp / ExprCompose / ExprSlice are constructors of terms"""
+
+    def tsize(self, t):
+        if isinstance(t, Term):
+            if t.head == "leaf":
+                return t[2]
+            if t.head in ("zext", "sext"):
+                return t[1]
+            if t.head == "msb":
+                return 1
+            if t.head == "op" and len(t) >= 3:
+                return self.tsize(t[2])
+            if t.head == "ExprInt" and len(t) == 3 and isinstance(t[2], int):
+                return t[2]
+            if t.head == "ExprCond" and len(t) == 4:
+                return self.tsize(t[2])
+        raise Undetermined("size of %r" % (t,))
+
+    def ev(self, e, env):
+        if isinstance(e, ast.Attribute) and e.attr == "size":
+            b = self.ev(e.value, env)
+            if isinstance(b, Term):
+                return self.tsize(b)
+        if isinstance(e, ast.UnaryOp) and isinstance(e.op, ast.Invert):
+            v = self.ev(e.operand, env)
+            if isinstance(v, Term):
+                return Term("op", "~", v)
+        return Interp.ev(self, e, env)
+
+    def call(self, e, env):
+        if isinstance(e.func, ast.Attribute) and e.func.attr in ("msb", "zeroExtend", "signExtend", "is_op", "is_int"):
+            b = self.ev(e.func.value, env)
+            if isinstance(b, Term):
+                args = [self.ev(a, env) for a in e.args]
+                if e.func.attr == "msb":
+                    return Term("msb", b)
+                if e.func.attr == "zeroExtend":
+                    return b if args[0] == self.tsize(b) else Term("zext", args[0], b)
+                if e.func.attr == "signExtend":
+                    return b if args[0] == self.tsize(b) else Term("sext", args[0], b)
+                if e.func.attr == "is_int":
+                    return False
+        return Interp.call(self, e, env)
+
+
+def flag_term(repo, op, sizes):
+    """Term simp_flags returns for op(a, b, ..) with operands of the given bit sizes (leaves a, b, c ...)."""
+    m = repo.mod(SXP)
+    fn = m.func("simp_flags")
+    funcs = dict((q, f) for q, f in m.funcs.items() if "." not in q)
+    it = _ExprBuildInterp(functions=funcs, methods={}, consts={}, externals=("ExprCond", "ExprInt", "ExprOp", "ExprCompose", "ExprSlice", "ExprId"))
+    leaves = [Term("leaf", "abcd"[i], s) for i, s in enumerate(sizes)]
+
+    class _E(FakeExpr):
+        pass
+    expr = FakeExpr("op", 1, op=op, args=leaves)
+    orig_method = expr.method
+
+    def method(name, args):
+        if name == "is_op":
+            return (not args) or args[0] == op
+        return orig_method(name, args)
+    expr.method = method
+    params = [a.arg for a in fn.args.args]
+    return it.call_function(fn, [None, expr][-len(params):] if len(params) <= 2 else [None, expr])
+
+
+def ac_norm(t):
+    """commutative operators (^ & | + *) get their operands sorted (nested chains flattened)"""
+    if not isinstance(t, Term):
+        return t
+    if t.head == "op" and t[1] in ("^", "&", "|", "+", "*") and len(t) == 4:
+        items = []
+
+        def flat(x):
+            if isinstance(x, Term) and x.head == "op" and x[1] == t[1] and len(x) == 4:
+                flat(x[2])
+                flat(x[3])
+            else:
+                items.append(ac_norm(x))
+        flat(t)
+        return Term("ac", t[1], *sorted(items, key=repr))
+    return Term(t.head, *[ac_norm(x) for x in t.args])
+
+
+def term_subst(t, old, new):
+    if t == old:
+        return new
+    if isinstance(t, Term):
+        return Term(t.head, *[term_subst(x, old, new) for x in t.args])
+    return t
